@@ -2182,6 +2182,8 @@ val enc_dtls_hs : n -> n -> n -> n -> byte list -> byte list
 
 val gbits : n -> n g
 
+val gdversion : n g
+
 val gdch : dTLSClientHelloC g
 
 val gdbody : dTLSBody g
